@@ -18,6 +18,7 @@ STEP_THEOREMS = ['FlexVerif.C01Step.' + t for t in ('tab_eval', 'comp_code', 'co
                                                   'prevState_shape', 'nulTrans_spec', 'cellStep_eq_stepByte', 'forBody_run', 'for_loop',
                                                   'prevState_spec')]
 THEOREMS += STEP_THEOREMS
+THEOREMS += ['FlexVerif.C01StepC99.' + t for t in ('prevState_same', 'nulTrans_same', 'prevState_spec_c99', 'nulTrans_spec_c99')]
 
 
 def regen_prevstate():
@@ -27,15 +28,18 @@ def regen_prevstate():
     flex, src = flexrun.build_flex()
     try:
         body, info = gen_prevstate.generate(flex, flexrun.scratch_root())
+        body99, info99 = gen_prevstate.generate_c99(flex, flexrun.scratch_root())
     except gen_prevstate.TranslateError as e:
         return None, str(e)
-    path = os.path.join(common.LEAN_DIR, 'FlexVerif', 'Gen', 'PrevState.lean')
+    files = [(os.path.join(common.LEAN_DIR, 'FlexVerif', 'Gen', 'PrevState.lean'), body),
+             (os.path.join(common.LEAN_DIR, 'FlexVerif', 'Gen', 'PrevStateC99.lean'), body99)]
     lock = open(os.path.join(common.LEAN_DIR, '.build.lock'), 'w')
     fcntl.flock(lock, fcntl.LOCK_EX)
     try:
-        old = open(path).read() if os.path.exists(path) else ''
-        if old != body:
-            open(path, 'w').write(body)
+        for path, text in files:
+            old = open(path).read() if os.path.exists(path) else ''
+            if old != text:
+                open(path, 'w').write(text)
     finally:
         fcntl.flock(lock, fcntl.LOCK_UN)
         lock.close()
